@@ -61,6 +61,19 @@ func CuratedSpecs() []*StructSpec {
 		f(6, Default, tlist(tmap(ts(KI16), tset(tref("RecMix", true))))).
 		f(7, Default, ts(KI64)))
 	add(newS("RecH").f(1, Optional, tref("RecH", true)).f(2, Default, tlist(tref("RecH", true))).f(3, Default, ts(KI16)).holder())
+	// a wide record: many variable-length fields at every level next to the recursive links (C15:
+	// depth accounting must count levels, not the fields decoded on the way down)
+	wide := newS("RecWide").f(1, Optional, tref("RecWide", true)).f(2, Default, tlist(tref("RecWide", true))).
+		f(3, Default, tmap(ts(KString), tref("RecWide", true)))
+	for j := 0; j < 24; j++ {
+		req := Default
+		if j%3 == 2 {
+			req = Optional
+		}
+		wide.f(uint16(10+j), req, ts(KString))
+	}
+	wide.f(40, Default, tlist(ts(KString))).f(41, Default, tmap(ts(KI32), ts(KString))).f(42, Default, ts(KBinary)).f(43, Default, ts(KI32))
+	add(wide)
 	// mutual recursion (C07, C08, C13 orders of first use)
 	add(newS("MutA").f(1, Optional, tref("MutB", true)).f(2, Required, ts(KI64)))
 	add(newS("MutB").f(1, Default, tlist(tref("MutA", true))).f(2, Optional, tref("MutC", true)))
